@@ -11,6 +11,8 @@ import Hg.Model.Spec
 import Hg.Model.Shape
 import Hg.Model.Fcn
 import Hg.Model.Np
+import Hg.Model.Access
+import Hg.Model.NpHyp
 
 namespace Hg.Proto
 open Hg Hg.Wire
@@ -200,6 +202,44 @@ def step (pool : Pool) (cmd : Json) : Pool × Json :=
           | none => (pool, .str "$raise:type")
         | _, _ => (pool, err "bad fillnp")
       | none => (pool, err "bad fillnp")
+    | "$view", [h, what, lo, hi] =>
+      let optRat (j : Json) : Option (Option Rat) := match j with | .null => some none | .num q => some (some q) | _ => none
+      match (strOf? h).bind pool.get?, strOf? what, optRat lo, optRat hi with
+      | some (.node k _ _ _ kids), some what, some lo, some hi =>
+        let nums (l : List Rat) : Json := .arr (l.map Json.num)
+        let vals (l : List Val) : Json := .arr (l.map valToWire)
+        match k, what with
+        | .bin _ n L H, "numbins" => (pool, .num (Bin.numBins n L H lo hi : Nat))
+        | .bin _ n L H, "edges" => (pool, nums (Bin.edges n L H lo hi))
+        | .bin _ n L H, "centers" => (pool, nums (Bin.centers n L H lo hi))
+        | .bin _ n L H, "entries" => (pool, vals (Bin.entriesIn n L H kids lo hi))
+        | .sparse _ w o _ _, "numbins" => (pool, .num ((Sparse.numBins w o kids lo hi : Int) : Rat))
+        | .sparse _ w o _ _, "edges" => (pool, nums (Sparse.edges w o kids lo hi))
+        | .sparse _ w o _ _, "entries" => (pool, vals (Sparse.entriesIn w o kids lo hi))
+        | .central _, "centers" => (pool, nums (Central.centersIn (centersOf (keysOf kids)) lo hi))
+        | .central _, "entries" => (pool, vals (Central.entriesIn kids (centersOf (keysOf kids)) lo hi))
+        | .irregular _, "entries" => (pool, vals (Irregular.entriesIn kids (thresholdsOf (keysOf kids)) lo hi))
+        | _, _ => (pool, err "no such view")
+      | _, _, _, _ => (pool, err "bad view")
+    | "$viewat", [h, x] =>
+      match (strOf? h).bind pool.get?, ratOf? x with
+      | some (.node k _ _ _ kids), some x =>
+        match k with
+        | .bin _ n L H => (pool, valToWire (Bin.entryAt n L H kids x))
+        | .sparse _ w o _ _ => (pool, valToWire (Sparse.entryAt w o kids x))
+        | .irregular _ => (pool, valToWire (Irregular.entryAt kids (thresholdsOf (keysOf kids)) x))
+        | .central _ =>
+          (pool, valToWire (((binEntriesAll kids)[Central.index true (.fin x) (centersOf (keysOf kids))]?).getD 0))
+        | _ => (pool, err "no such view")
+      | _, _ => (pool, err "bad viewat")
+    | "$nphyp", [h, .arr rows] =>
+      -- hypotheses of the C03 theorems on a batch: qtysOk, noNanForSums, nonNegW, hasTmpl
+      match (strOf? h).bind pool.get?, rows.mapM (fun row => match row with
+          | .arr [d, w] => (datumOf? d).bind (fun d => (valOf? w).map (fun w => (d, w)))
+          | _ => none) with
+      | some a, some s =>
+        (pool, .arr [.bool (qtysOk a (s.map (·.1))), .bool (noNanForSums a (s.map (·.1))), .bool (nonNegW (s.map (·.2))), .bool (hasTmpl a)])
+      | _, _ => (pool, err "bad nphyp")
     | "$dup", [hn, h] =>
       -- a clone with identical content (the model of a pickle round trip)
       match strOf? hn, (strOf? h).bind pool.get? with
